@@ -1,1 +1,192 @@
--- property theorems for C07 (stub)
+import JanetModel.Wait.Mono
+import JanetModel.Gen.Wait
+/-
+C07 — a suspended fiber is resumed only by what it is currently waiting for.
+
+All theorems are about the model `JanetModel.Wait` (Wait/Model.lean), for ALL sequences of steps (`Op`): actions of any
+fiber, of the kernel (stream readiness, process exit), of the clock, and the loop phases, in any order.
+The model is parameterised by `Cfg` = which generation / status checks the C source has at which site; the check
+regenerates `Gen.Wait.cfg` from the current source and kernel-checks `Gen.Wait.cfg.allChecked = true` separately
+(on the pinned tree it is false: `popSkipsStale` and `closeChecks` are missing, see the two `*_unchecked` witnesses below).
+-/
+namespace JanetModel.Props.C07
+open JanetModel.Wait
+
+/-- ★ Every run-queue task that is executed for a fiber carries the fiber's current generation
+(`expected_sched_id = sched_id`), and it was created by the completion / timeout / cancel of a registration whose recorded
+generation was the fiber's generation at that moment (`regGen + 1 = expected`): between the creation of that registration
+and this resume the fiber was scheduled exactly once — by this task.  So the registration belongs to the wait the fiber is
+currently in. -/
+theorem resume_only_by_current_wait (cfg : Cfg) (hc : cfg.allChecked = true) (ops : List Op) :
+    ∀ e ∈ (run cfg init ops).log, e.task.expected = e.schedIdAtRun ∧ e.task.regGen + 1 = e.task.expected := by
+  intro e he
+  have := (run_inv cfg hc ops init_inv).l e he
+  exact ⟨this.cur, this.gen⟩
+
+/-- generation counter: never decreases, whatever happens and whichever checks are present … -/
+theorem generation_monotone (cfg : Cfg) (w : World) (ops : List Op) (f : Nat) :
+    (w.fibers f).schedId ≤ ((run cfg w ops).fibers f).schedId := run_Mono cfg ops w f
+
+/-- … and strictly increases at every schedule (unless the CANCELED guard swallows the call entirely). -/
+theorem generation_strictly_increases (cfg : Cfg) (hb : cfg.scheduleBumps = true) (w : World) (f : Nat) (v : Val) (e : Bool)
+    (rg nb : Nat) (src : Src) :
+    schedule cfg w f v e rg nb src = w ∨ ((schedule cfg w f v e rg nb src).fibers f).schedId = (w.fibers f).schedId + 1 := by
+  rcases schedule_bumps cfg hb w f v e rg nb src with h | h
+  · exact Or.inl h
+  · exact Or.inr h.1
+
+/-- registrations store the generation current at their creation -/
+theorem registration_records_generation (cfg : Cfg) (w : World) (f c k d : Nat) (ch : Bool) (kind : TKind) :
+    ((w.chans c).items = [] → ∃ p ∈ ((chanPop cfg w f c ch).1.chans c).rp, p.fiber = f ∧ p.schedId = (w.fibers f).schedId) ∧
+    (∃ t ∈ (addTimer cfg w f kind d).timers, t.fiber = f ∧ t.schedId = (w.fibers f).schedId ∧ t.start = w.now) ∧
+    ((procWait w f k).procs k = some (f, (w.fibers f).schedId)) := by
+  refine ⟨?_, ?_, ?_⟩
+  · intro hi
+    refine ⟨{ fiber := f, schedId := (w.fibers f).schedId, choice := ch }, ?_, rfl, rfl⟩
+    simp [chanPop, hi]
+  · refine ⟨_, (mem_insertTimer _ _ _).mpr (Or.inl rfl), rfl, rfl, rfl⟩
+  · simp [procWait]
+
+/-- once a registration of generation `g` is stale it stays stale: forever, under any configuration -/
+theorem stale_forever (cfg : Cfg) (w : World) (f g : Nat) (h : g < (w.fibers f).schedId) (ops : List Op) :
+    live (run cfg w ops) f g = false := by
+  have := run_Mono cfg ops w f
+  simp [live]
+  omega
+
+/-- ★ stale_inert.  A stale channel entry, timer, process-wait record or detached listener changes nothing:
+(1) give: a stale reader at the head of `read_pending` is equivalent to its absence;
+(2) take: a stale writer at the head of `write_pending` is equivalent to its absence;
+(3) close: a stale entry is skipped;  (4) an expired stale sleep / timeout timer does nothing;
+(5) exit of a process whose waiter moved on changes no fiber and no task;
+(6) after a fiber was resumed (for whatever reason) it has no listener, and readiness of a stream whose fiber has no
+    listener does nothing. -/
+theorem stale_inert (cfg : Cfg) (hc : cfg.allChecked = true) (w : World) :
+    (∀ f c x ch e rest, (w.chans c).rp = e :: rest → live w e.fiber e.schedId = false →
+        chanPush cfg w f c x ch = chanPush cfg { w with chans := set w.chans c { (w.chans c) with rp := rest } } f c x ch) ∧
+    (∀ c items e rest, (w.chans c).wp = e :: rest → live w e.fiber e.schedId = false →
+        chanPopWake cfg w c items = chanPopWake cfg { w with chans := set w.chans c { (w.chans c) with wp := rest } } c items) ∧
+    (∀ c e, live w e.fiber e.schedId = false → closeOne cfg c w e = w) ∧
+    (∀ to : Timer, (∀ b, to.kind ≠ .deadline b) → live w to.fiber to.schedId = false → fireTimer cfg w to = w) ∧
+    (∀ k st f g, w.procs k = some (f, g) → live w f g = false →
+        (procExit cfg w k st).fibers = w.fibers ∧ (procExit cfg w k st).queue = w.queue) ∧
+    (∀ s r v e f, (if r then (w.streams s).readFiber else (w.streams s).writeFiber) = some f → (w.fibers f).listener = none →
+        streamEvent cfg w s r v e = w) := by
+  obtain ⟨-, htc, hps, hpp, hcl, hpc, -, -, -, -, -⟩ := allChecked_fields hc
+  refine ⟨?_, ?_, ?_, ?_, ?_, ?_⟩
+  · intro f c x ch e rest hrp hst
+    unfold chanPush
+    simp only [hps, hrp, popLive_stale_head w e rest hst, set_same, set_set]
+    rw [popLive_congr true { w with chans := set w.chans c { (w.chans c) with rp := rest } } w rfl]
+  · intro c items e rest hwp hst
+    unfold chanPopWake
+    simp only [hpp, hwp, popLive_stale_head w e rest hst, set_same, set_set]
+    rw [popLive_congr true { w with chans := set w.chans c { (w.chans c) with wp := rest } } w rfl]
+  · intro c e hst
+    simp [closeOne, hcl, hst]
+  · intro to hk hst
+    unfold fireTimer
+    cases hkind : to.kind with
+    | deadline b => exact absurd hkind (hk b)
+    | timeout => simp [htc, hst]
+    | sleep => simp [htc, hst]
+  · intro k st f g hp hst
+    simp [procExit, hp, hpc, hst]
+  · intro s r v e f hs hl
+    simp [streamEvent, hs, hl]
+
+/-- listeners are detached when their fiber is resumed by anything (janet_fiber_did_resume) -/
+theorem listener_detached_on_resume (cfg : Cfg) (hc : cfg.allChecked = true) (w : World) (t : Task) (q : List Task)
+    (hq : w.queue = t :: q) (hcur : t.expected = (w.fibers t.fiber).schedId) :
+    ((runTask cfg w).fibers t.fiber).listener = none := by
+  obtain ⟨hrf, -, -, -, -, -, -, hdr, -, -, -⟩ := allChecked_fields hc
+  simp [runTask, hq, hrf, hdr, hcur, asyncEnd_listener]
+
+/-- ★ an item offered on a channel is not consumed by waiters that are no longer there: if every pending reader is stale,
+the give behaves as on a channel without readers — the item is appended to `items`, nobody is scheduled, no fiber changes. -/
+theorem item_not_consumed_by_absent_waiter (cfg : Cfg) (hc : cfg.allChecked = true) (w : World) (f c : Nat) (x : Val) (ch : Bool)
+    (hall : ∀ e ∈ (w.chans c).rp, live w e.fiber e.schedId = false) :
+    (((chanPush cfg w f c x ch).1.chans c).items = (w.chans c).items ++ [x]) ∧
+    (chanPush cfg w f c x ch).1.queue = w.queue ∧ (chanPush cfg w f c x ch).1.fibers = w.fibers := by
+  obtain ⟨-, -, hps, -, -, -, -, -, -, -, -⟩ := allChecked_fields hc
+  unfold chanPush
+  rw [hps, popLive_all_stale w _ hall]
+  simp only
+  by_cases hlen : ((w.chans c).items ++ [x]).length > (w.chans c).limit
+  · rw [if_pos hlen]; simp
+  · rw [if_neg hlen]; simp
+
+/-- ★ ev/sleep never returns early: a task created by the timer of `(ev/sleep d)` started at tick `s` is executed at a tick
+`≥ s + round(1000·d)` (d given in microseconds; ticks are the code's own millisecond granularity). -/
+theorem sleep_not_early (cfg : Cfg) (hc : cfg.allChecked = true) (ops : List Op) :
+    ∀ e ∈ (run cfg init ops).log, ∀ s d, e.task.src = .sleep s d → s + (d + 500) / 1000 ≤ e.tick := by
+  intro e he s d hs
+  exact ((run_inv cfg hc ops init_inv).l e he).sl s d hs
+
+/-- ★ a deadline fires only while the guarded body is resumable, and touches only the task it guards -/
+theorem deadline_scoped (cfg : Cfg) (hc : cfg.allChecked = true) (w : World) (to : Timer) (b : Nat) (hk : to.kind = .deadline b) :
+    (w.bodies b = false → fireTimer cfg w to = w) ∧
+    (∀ f, f ≠ to.fiber → (fireTimer cfg w to).fibers f = w.fibers f ∧
+        ∀ t ∈ (fireTimer cfg w to).queue, t.fiber = f → t ∈ w.queue) := by
+  obtain ⟨-, -, -, -, -, -, hdc, -, -, -, -⟩ := allChecked_fields hc
+  refine ⟨?_, ?_⟩
+  · intro hb
+    simp [fireTimer, hk, hdc, hb]
+  · intro f hf
+    unfold fireTimer
+    rw [hk]
+    simp only
+    split
+    · unfold schedule
+      split
+      · exact ⟨rfl, fun t ht _ => ht⟩
+      · refine ⟨set_other _ _ _ _ hf, ?_⟩
+        intro t ht htf
+        simp only [List.mem_append, List.mem_singleton] at ht
+        rcases ht with ht | ht
+        · exact ht
+        · subst ht; exact absurd htf (Ne.symm hf)
+    · exact ⟨rfl, fun t ht _ => ht⟩
+
+/-! ### The pinned tree: two sites lack the generation check — witnesses (replayed on the implementation by the check) -/
+
+/-- configuration of the pinned tree: take does not skip stale writers, close does not compare generations -/
+def cfgPinned : Cfg := { Cfg.full with popSkipsStale := false, closeChecks := false }
+
+/-- fiber 1 gives on channel 0 (blocks), is cancelled, resumes, blocks taking from channel 1; fiber 2 takes from channel 0 -/
+def witnessTake : List Op :=
+  [.give 1 0 (.kw 7) false, .cancel 1 (.err 2), .run, .take 1 1 false, .take 2 0 false, .run]
+
+/-- Without the check in `janet_channel_pop_with_lock` the invariant fails: fiber 1, blocked in `(ev/take ch1)`, is resumed
+by its ABANDONED give on channel 0 (registration of generation 0, fiber already at generation 1) and receives channel 0. -/
+theorem stale_writer_resumed_when_unchecked :
+    ∃ e ∈ (run cfgPinned init witnessTake).log, e.fiber = 1 ∧ e.task.value = .chan 0 ∧ e.task.src = .chanWrite 0 ∧
+      e.task.regGen + 1 ≠ e.task.expected := by
+  decide
+
+/-- with the check the same history resumes fiber 1 only for the cancellation -/
+example : ∀ e ∈ (run Cfg.full init witnessTake).log, e.fiber = 1 → e.task.src = .cancel := by decide
+
+/-- fiber 1 takes from channel 0 (blocks), is cancelled, resumes, blocks taking from channel 1; then channel 0 is closed -/
+def witnessClose : List Op :=
+  [.take 1 0 false, .cancel 1 (.err 2), .run, .take 1 1 false, .close 0, .run]
+
+theorem stale_reader_resumed_by_close_when_unchecked :
+    ∃ e ∈ (run cfgPinned init witnessClose).log, e.fiber = 1 ∧ e.task.value = .nil ∧ e.task.src = .chanClose 0 ∧
+      e.task.regGen + 1 ≠ e.task.expected := by
+  decide
+
+example : ∀ e ∈ (run Cfg.full init witnessClose).log, e.fiber = 1 → e.task.src = .cancel := by decide
+
+/-! ### Non-vacuity -/
+
+example : Cfg.full.allChecked = true := by decide
+
+/-- a history with a sleep, a stale timer, a give to a stale reader and a legitimate wake-up: the log is non-empty,
+the sleep is executed at tick 2 = 0 + round(1.5 ms), and the item given to the stale reader stays in the channel -/
+example :
+    let w := run Cfg.full init [.sleep 1 1500, .take 2 0 false, .cancel 2 (.err 2), .run, .give 3 0 (.kw 5) false,
+                                 .advance 1, .timers, .run, .advance 1, .timers, .run]
+    (w.log.map (fun e => (e.fiber, e.tick))) = [(1, 2), (2, 0)] ∧ (w.chans 0).items = [.kw 5] := by decide
+
+end JanetModel.Props.C07
